@@ -622,7 +622,98 @@ impl Hist {
         self.step(w, ix, monitors, acc);
     }
 
-    pub fn op_reward(&mut self, _w: &mut World, _p: usize, _monitors: &mut [Box<dyn Monitor>], _acc: &mut Acc) {}
+    pub fn op_reward(&mut self, w: &mut World, p: usize, monitors: &mut [Box<dyn Monitor>], acc: &mut Acc) {
+        let st = w.pool_state(p);
+        let n_init = st.reward_infos.iter().filter(|r| r.initialized()).count();
+        let live = self.live_positions(w, p);
+        match w.r.gen_range(0..14) {
+            0 | 1 if n_init < 3 => {
+                // initialise the next reward (sometimes a wrong index)
+                let idx = if rnd::chance(&mut w.r, 1, 6) { w.r.gen_range(0..4) as u8 } else { n_init as u8 };
+                let mint = if self.cfg.spl_only || w.r.gen() { w.add_spl_mint(6) } else { w.add_t22_mint(6, None) };
+                let (ix, vault) = w.init_reward_ix(p, idx, mint);
+                let o = self.step(w, ix, monitors, acc);
+                if o.ok() {
+                    // fund the vault: generously, barely, or not at all
+                    let amt = *rnd::pick(&mut w.r, &[0u64, 1, 1000, 86_400, 10_000_000, u64::MAX / 8]);
+                    w.set_token_balance(vault, amt);
+                    w.pools[p].rewards.push((mint, vault));
+                }
+            }
+            2..=4 if n_init > 0 => {
+                let idx = if rnd::chance(&mut w.r, 1, 10) { w.r.gen_range(0..4) as u8 } else { w.r.gen_range(0..n_init) as u8 };
+                let e: u128 = match w.r.gen_range(0..8) {
+                    0 => 0,
+                    1 => 1,
+                    2 => 1u128 << 64,
+                    3 => rnd::log_u128(&mut w.r, 128),
+                    _ => rnd::log_u128(&mut w.r, 90),
+                };
+                if rnd::chance(&mut w.r, 1, 3) {
+                    // re-fund the vault around the day-of-emissions requirement
+                    if let Some(r) = st.reward_infos.get(idx as usize) {
+                        if r.initialized() {
+                            let need = ((86_400u128.saturating_mul(e)) >> 64).min(u64::MAX as u128) as u64;
+                            let amt = *rnd::pick(&mut w.r, &[need, need.saturating_sub(1), need.saturating_add(1), need / 2, u64::MAX / 8]);
+                            w.set_token_balance(r.vault, amt);
+                        }
+                    }
+                }
+                let ix = w.set_emissions_ix(p, idx, e);
+                self.step(w, ix, monitors, acc);
+            }
+            5..=7 if !live.is_empty() => {
+                let i = *rnd::pick(&mut w.r, &live);
+                if w.r.gen() {
+                    let ix = w.update_fees_ix(i);
+                    self.step(w, ix, monitors, acc);
+                }
+                let idx = if rnd::chance(&mut w.r, 1, 12) { w.r.gen_range(0..5) as u8 } else { w.r.gen_range(0..3) as u8 };
+                if rnd::chance(&mut w.r, 1, 4) {
+                    // the vault may hold less than what is owed
+                    if let Some(r) = st.reward_infos.get(idx as usize).filter(|r| r.initialized()) {
+                        let amt = *rnd::pick(&mut w.r, &[0u64, 1, 5, 1000]);
+                        w.set_token_balance(r.vault, amt);
+                    }
+                }
+                let ix = w.collect_reward_ix(i, idx);
+                self.step(w, ix, monitors, acc);
+            }
+            8 | 9 => {
+                // time passes
+                let dt = *rnd::pick(&mut w.r, &[1i64, 1, 7, 60, 3600, 86_400, 1_000_000, 1_000_000_000]);
+                w.advance_clock(dt);
+                acc.count("clock_advance");
+            }
+            10 if st.reward_last_updated_timestamp > 0 => {
+                // one attempt to go backwards: every timestamp-carrying instruction must fail
+                let now = w.now();
+                let back = st.reward_last_updated_timestamp as i64 - w.r.gen_range(1..1000);
+                if back > 0 && back < now {
+                    w.bank.clock.unix_timestamp = back;
+                    acc.count("clock_backwards_episodes");
+                    if !live.is_empty() {
+                        let i = *rnd::pick(&mut w.r, &live);
+                        let ix = w.update_fees_ix(i);
+                        self.step(w, ix, monitors, acc);
+                        self.increase(w, i, 1000, monitors, acc);
+                    }
+                    self.op_swap(w, p, monitors, acc);
+                    if n_init > 0 {
+                        let ix = w.set_emissions_ix(p, 0, 0);
+                        self.step(w, ix, monitors, acc);
+                    }
+                    w.bank.clock.unix_timestamp = now;
+                }
+            }
+            _ if !live.is_empty() => {
+                let i = *rnd::pick(&mut w.r, &live);
+                let ix = w.update_fees_ix(i);
+                self.step(w, ix, monitors, acc);
+            }
+            _ => {}
+        }
+    }
     /// (p1, p2, a_to_b_one, a_to_b_two) combinations whose legs chain through a shared mint.
     pub fn two_hop_routes(w: &World) -> Vec<(usize, usize, bool, bool)> {
         let mut v = vec![];
